@@ -150,6 +150,11 @@ def run(eng, rep, tier):
     ob.decide("R1", "C13.5", fi, "start-stack-symbol=start-symbol", oks,
               "the PDA starts with the grammar's start symbol on the stack",
               "the start stack symbol of to_pda is not the grammar's start symbol", summ, site=site_of(prog, fi, fi.node))
+    from . import optid
+    n_opt = optid.check(eng, rep, "C13", "C13.6", [(prog.method("PDA", "__init__"), PDA)], names.ID_CLASSES)
+    if n_opt < 2:
+        rep.error("R6", "C13.6", PDA, "optional-identifier-tested-against-None",
+                  "the optional start state / start stack symbol of PDA.__init__ were not found (%d)" % n_opt)
     names.check(eng, rep, "C13")
     rep.stats.update(eng.stats())
     rep.floor = 24
